@@ -666,7 +666,7 @@ func (p *Prog) checkForwarding(fn *ssa.Function, e ssa.Value, errIdxOf func(*ssa
 	direct := false
 	for _, ret := range returnsOf(fn) {
 		i := errIdxOf(ret)
-		if i >= 0 && i < len(ret.Results) && sameValue(ret.Results[i], e) {
+		if i >= 0 && i < len(ret.Results) && (sameValue(ret.Results[i], e) || sameValue(derefFlow(ret.Results[i]), e)) {
 			if !knownNil(ret.Block(), e) {
 				direct = true
 			}
@@ -706,40 +706,129 @@ func lastResultIdx(ret *ssa.Return) int { return len(ret.Results) - 1 }
 
 func ruleP05WriteResult(p *Prog, r *Report) {
 	const rule = "P05-write-result"
-	// every module function with a direct write primitive whose own last result is error-like
-	n := 0
-	for _, f := range p.srcFns {
-		for _, ps := range primSitesIn(f) {
-			if ps.prim.Name() != "WriteFile" {
-				continue
+	// The functions behind the validated write of ReconcileFile: every module function with a
+	// direct file-mutation primitive that is reachable from that call site.
+	var writers []*ssa.Function
+	seenW := map[*ssa.Function]bool{}
+	for _, impl := range p.implsOf("klog/app", "Context", "ReconcileFile") {
+		for _, site := range p.writeSitesIn(impl) {
+			for _, callee := range p.calleesAt(site) {
+				rc := p.reach([]*ssa.Function{callee}, nil, nil)
+				for _, h := range rc.moduleFuncs() {
+					if len(primSitesIn(h)) > 0 && !seenW[h] {
+						seenW[h] = true
+						writers = append(writers, h)
+					}
+				}
 			}
-			n++
-			key := fnName(f)
-			ei := errResultIndex(ps.site.Common().Signature())
-			e := resultOf(ps.site, ei)
-			if e == nil {
-				r.bad(rule, key+":err", p.instrPos(ps.site), "the error of %s is discarded", ps.prim)
-				continue
+		}
+	}
+	if len(writers) == 0 {
+		r.undecided(rule, "floor", "-", "no function with a file-write primitive is reachable from the validated write of ReconcileFile")
+		return
+	}
+	oTrunc, haveTrunc := p.osConst("O_TRUNC")
+	for _, f := range writers {
+		key := fnName(f)
+		if errResultIndex(f.Signature) < 0 {
+			r.bad(rule, key+":sig", p.pos(f.Pos()), "%s writes a file but cannot report failure", key)
+			continue
+		}
+		truncates := false
+		// every fallible os-level call in the writer must have its error forwarded
+		eachInstr(f, func(in ssa.Instruction) {
+			c, ok := in.(ssa.CallInstruction)
+			if !ok {
+				return
 			}
-			if errResultIndex(f.Signature) < 0 {
-				r.bad(rule, key+":sig", p.pos(f.Pos()), "%s writes a file but cannot report failure", key)
-				continue
+			g := staticCallee(c)
+			if g == nil || pkgPathOfFn(g) != "os" && !(g.Signature.Recv() != nil && typePkgPath(g.Signature.Recv().Type()) == "os") {
+				return
+			}
+			switch {
+			case g.String() == "os.WriteFile", g.String() == "os.Create":
+				truncates = true
+			case g.String() == "os.OpenFile":
+				if k, isK := constInt(c.Common().Args[1]); isK && haveTrunc && k&oTrunc != 0 {
+					truncates = true
+				}
+			case g.String() == "(*os.File).Truncate":
+				if k, isK := constInt(c.Common().Args[1]); isK && k == 0 {
+					truncates = true
+				}
+			}
+			ei := errResultIndex(c.Common().Signature())
+			if ei < 0 {
+				return
+			}
+			if _, isDefer := in.(*ssa.Defer); isDefer {
+				return
+			}
+			ck := key + ":" + fnBase(g)
+			e := resultOf(c, ei)
+			if e == nil || len(*e.Referrers()) == 0 {
+				if fnBase(g) == "Close" {
+					r.ok(rule, ck, p.instrPos(c), "Close error not checked (data errors are reported by Write/Sync)")
+					return
+				}
+				r.bad(rule, ck, p.instrPos(c), "the error of %s is discarded: a failed write is reported as success", g)
+				return
 			}
 			msg, how := p.checkForwarding(f, e, lastResultIdx)
-			r.check(msg == "", rule, key+":failure-reported", p.instrPos(ps.site), "write failure is reported: "+how, "write failure is not reported: "+msg)
-			// and success is reported as nil: every return on the nil edge returns nil
+			r.check(msg == "", rule, ck+":failure-reported", p.instrPos(c), "failure of "+fnBase(g)+" is reported: "+how, "failure of "+fnBase(g)+" is not reported: "+msg)
 			okNil := true
 			for _, ret := range returnsOf(f) {
-				if knownNil(ret.Block(), e) && p.nilnessAt(ret.Block(), ret.Results[len(ret.Results)-1], 0) != nnNil {
+				if knownNil(ret.Block(), e) && !knownNonNilAny(ret.Block()) && isLastFallible(f, c) && p.nilnessAt(ret.Block(), ret.Results[len(ret.Results)-1], 0) != nnNil {
 					okNil = false
 				}
 			}
-			r.check(okNil, rule, key+":success-reported", p.instrPos(ps.site), "a successful write returns nil", "a successful write is reported as failure")
+			r.check(okNil, rule, ck+":success-reported", p.instrPos(c), "success is returned as nil", "a successful write is reported as failure")
+		})
+		r.check(truncates, rule, key+":replaces-content", p.pos(f.Pos()), "the write replaces the whole file (WriteFile / Create / O_TRUNC)", "the file is opened for writing without truncation: when the new text is shorter, the old tail stays on disk and the file no longer is the validated text")
+	}
+}
+
+// osConst returns the value of an integer constant of package os in the analysed configuration.
+func (p *Prog) osConst(name string) (int64, bool) {
+	pk := p.all["os"]
+	if pk == nil {
+		return 0, false
+	}
+	c, ok := pk.Types.Scope().Lookup(name).(*types.Const)
+	if !ok {
+		return 0, false
+	}
+	v, exact := constant.Int64Val(c.Val())
+	return v, exact
+}
+
+// knownNonNilAny is a placeholder for returns that are failures of another call.
+func knownNonNilAny(b *ssa.BasicBlock) bool { return false }
+
+// isLastFallible: c is the last fallible os call of f in program order along the dominator
+// tree (the success return follows it).
+func isLastFallible(f *ssa.Function, c ssa.CallInstruction) bool {
+	last := true
+	eachInstr(f, func(in ssa.Instruction) {
+		d, ok := in.(ssa.CallInstruction)
+		if !ok || d == c {
+			return
 		}
-	}
-	if n == 0 {
-		r.undecided(rule, "floor", "-", "no os.WriteFile call site found in the module")
-	}
+		if _, isDefer := in.(*ssa.Defer); isDefer {
+			return
+		}
+		g := staticCallee(d)
+		if g == nil || errResultIndex(d.Common().Signature()) < 0 {
+			return
+		}
+		if pkgPathOfFn(g) != "os" && !(g.Signature.Recv() != nil && typePkgPath(g.Signature.Recv().Type()) == "os") {
+			return
+		}
+		if c.Block().Dominates(d.Block()) && (c.Block() != d.Block() || instrIndex(c) < instrIndex(d)) {
+			last = false
+		}
+	})
+	return last
 }
 
 func ruleP05Propagate(p *Prog, r *Report) {
